@@ -597,7 +597,7 @@ func (ex *Exec) reflectValueMethod(m string, r RVal, args []Value, fr *Frame, po
 		if !token.IsExported(name) {
 			return RVal{}
 		}
-		fn := ex.prog.LookupMethod(r.typ, nil, name)
+		fn := ex.lookupMethod(r.typ, name)
 		if fn == nil || !inMethodSet(r.typ, name) {
 			return RVal{}
 		}
